@@ -140,6 +140,14 @@ def register(S):
                   {"label": "transport died", "sets": {"self._channel.stream.sock": "ClosedFile"},
                    "modifies": ALLMODS + ["self._recvlock.held"]}]
     S.contract(F + "serve", params={"self": "obj:Connection", "timeout": "val", "wait_for_lock": "any"}, result="any",
+               behaviours={
+                   # what a waiter (AsyncResult.wait) may rely on without knowing the connection's state: ASSUMED view
+                   "as_seen_by_a_waiter": dict(trusted=True, params={"timeout": "any"}, clock=True, ensures={},
+                                               # (the transport's own timeouts are retried inside the streams and never
+                                               # escape as TimeoutError)
+                                               raises={"BaseException": {"state": ["not exc_is(exc, 'TimeoutError')"],
+                                                                         "props": ["C15"], "modifies": []}},
+                                               modifies=[])},
                init=QUIET, clock=True,
                requires=SERVE_REQ + ["isnone(timeout) or (isnum(timeout) and num_of(timeout) >= 0)"],
                calls={"recv": {"behaviour": "safety"}},
